@@ -1060,7 +1060,9 @@ impl TxOracle {
                 match self.max_edge {
                     None => out.fail("c05-beyond-window", format!("{} data sent before any window was learned", who)),
                     Some(e) => {
-                        let probe = len == 1 && off <= e;
+                        // "one-byte zero-window probes excepted": with a window the peer shrank below
+                        // what is in flight the probe byte lies beyond the learned edge
+                        let probe = len == 1;
                         if off + len > e && !probe {
                             out.fail(
                                 "c05-beyond-window",
@@ -1626,7 +1628,12 @@ pub struct E2e {
     pub tracing: bool,
     probe_rng: Rng,
     medium: Medium,
+    /// the run cannot continue (poll livelock)
+    dead: bool,
 }
+
+/// frames one `Interface::poll` may transmit before the harness declares it a livelock
+pub const POLL_TX_BUDGET: usize = 5000;
 
 fn seg_brief(s: &Seg, iss: Option<u32>, irs: Option<u32>) -> String {
     let so = iss.map(|i| seqdiff(s.seq, i.wrapping_add(1)).to_string()).unwrap_or_else(|| "?".into());
@@ -1657,6 +1664,7 @@ impl E2e {
             tracing,
             probe_rng: Rng::new(cfg.seed ^ 0x9E0B),
             medium: if cfg.eth { Medium::Ethernet } else { Medium::Ip },
+            dead: false,
         }
     }
 
@@ -1740,6 +1748,7 @@ impl E2e {
         let ip_mtu = self.cfg.mtu;
         let id = self.cfg.id.clone();
         let (rx_n, frames, rxfree_before, rxfree_after);
+        let livelock;
         let mut tw_lost = None;
         {
             let e = &mut self.eps[i];
@@ -1753,7 +1762,11 @@ impl E2e {
             for (sg, cx) in &pend {
                 e.txo.on_delivered(sg, if single { Some(cx) } else { None });
             }
+            // watchdog: a poll that keeps transmitting would never return on a real device
+            e.dev.tx_budget = Some(POLL_TX_BUDGET);
             e.iface.poll(Instant::from_micros(now), &mut e.dev, &mut e.sockets);
+            livelock = e.dev.tx_budget == Some(0);
+            e.dev.tx_budget = None;
             rx_n = e.dev.n_rx - n0;
             frames = e.dev.drain_tx();
             rxfree_after = e.rxfree();
@@ -1767,6 +1780,10 @@ impl E2e {
             }
         }
         self.out.bump("polls", 1);
+        if livelock {
+            let d = format!("case {} t={}us {}: one Interface::poll transmitted {} frames and was still going (it never returns on a device that always accepts frames); {}", id, now, self.eps[i].name, POLL_TX_BUDGET, self.eps[i].describe());
+            self.out.fail("c03-poll-never-returns", d);
+        }
         if let Some(q) = tw_lost {
             let d = format!("case {} t={}us {}: TIME-WAIT expired and the socket discarded {} received bytes the application had not read yet (recv can never return them or Finished)", id, now, self.eps[i].name, q);
             self.out.fail("c02-timewait-discards-unread", d);
@@ -1797,6 +1814,7 @@ impl E2e {
         }
         self.eps[i].last_poll_t = now;
         // emitted frames: C10 validation, C05 oracle, link
+        let frames = if livelock { self.dead = true; vec![] } else { frames };
         for f in frames {
             if let Err(m) = validate_frame(medium, &f, &self.eps[i].own, self.eps[i].dev.mtu) {
                 let c = c10_class(&m);
@@ -2055,6 +2073,10 @@ impl E2e {
                 reason = "no-progress-for-10-virtual-minutes";
                 break;
             }
+            if self.dead {
+                reason = "poll-livelock";
+                break;
+            }
             if steps > max_steps || (steps % 4096 == 0 && t_wall.elapsed().as_secs() > 120) {
                 reason = "step-or-wall-limit";
                 break;
@@ -2139,7 +2161,7 @@ impl E2e {
             self.out.bump("completed", 1);
         } else if timeouts {
             self.out.bump("ended_with_timeout_configured", 1);
-        } else if self.out.fails.iter().any(|(c, _)| c == "c02-timewait-discards-unread") {
+        } else if self.out.fails.iter().any(|(c, _)| c == "c02-timewait-discards-unread" || c == "c03-poll-never-returns") {
             // already reported with its own class
         } else if self.eps.iter().any(|e| e.closed_in_synrcvd) {
             self.out.fail("c02-close-in-syn-received", format!("case {}: close() was called in SYN-RECEIVED and the shutdown never completed ({}); {}", cfg.id, reason, desc));
@@ -2428,9 +2450,23 @@ impl RxSim {
         let now = self.now;
         let before = self.rxcap - self.sock_ref().recv_queue();
         let n0 = self.dev.n_rx;
+        self.dev.tx_budget = Some(POLL_TX_BUDGET);
+        let st0 = self.sock_ref().state();
+        let q0 = self.sock_ref().recv_queue();
         self.iface.poll(Instant::from_micros(now), &mut self.dev, &mut self.sockets);
+        if st0 == tcp::State::TimeWait && self.sock_ref().state() == tcp::State::Closed && q0 > 0 && self.sock_ref().recv_queue() == 0 {
+            let d = format!("case {} t={}us: TIME-WAIT expired and the socket discarded {} received bytes the application had not read yet (recv can never return them or Finished)", self.id, now, q0);
+            self.out.fail("c02-timewait-discards-unread", d);
+        }
+        let livelock = self.dev.tx_budget == Some(0);
+        self.dev.tx_budget = None;
         let rx_n = self.dev.n_rx - n0;
-        let frames = self.dev.drain_tx();
+        let mut frames = self.dev.drain_tx();
+        if livelock {
+            let d = format!("case {} t={}us: one Interface::poll transmitted {} frames and was still going (it never returns on a device that always accepts frames); {}", self.id, now, POLL_TX_BUDGET, self.describe());
+            self.out.fail("c03-poll-never-returns", d);
+            frames.truncate(3);
+        }
         let after = self.rxcap - self.sock_ref().recv_queue();
         self.refresh();
         self.out.bump("polls", 1);
@@ -2644,12 +2680,16 @@ impl RxSim {
                     s.connect(self.iface.context(), (pa, pp), sp).expect("connect");
                 }
                 self.refresh();
-                self.poll();
+                // `open nopoll`: the socket call only; the first poll comes with a later op
+                if t.get(1) != Some(&"nopoll") {
+                    self.poll();
+                }
             }
             "syn" => {
                 let win: u16 = kv("win").map(|v| v.parse().unwrap()).unwrap_or(65535);
-                // SYN (listen role) or SYN-ACK (connect role)
-                let ack = if self.listen { None } else { Some(0) };
+                // SYN (listen role) or SYN-ACK (connect role; `bare=1`: a SYN without ACK, i.e. a
+                // simultaneous open)
+                let ack = if self.listen || kv("bare") == Some("1") { None } else { Some(0) };
                 self.peer_send(0, 0, false, false, true, ack, win);
             }
             "seg" => {
